@@ -32,3 +32,11 @@ func KeyNeedsEscape(v any) bool {
 	return false
 }
 
+
+// DependencyMarshalPanic recognises the panic caused by go-openapi/spec v0.21.0
+// re-marshalling a schema whose properties/patternProperties key needs JSON
+// escaping during $ref expansion (known finding KF-spec-marshal-unescaped-key,
+// claimed under C01/C06; other checks count such cases as excluded).
+func DependencyMarshalPanic(msg string, schemaRaw any) bool {
+	return strings.Contains(msg, "spec.OrderSchemaItems") && KeyNeedsEscape(schemaRaw)
+}
